@@ -3,6 +3,7 @@ import Zed.Model.ZsonAnalyze
 import Zed.Model.ZsonJson
 import Zed.Proofs.ZsonQuote
 import Zed.Proofs.ZsonRoundtrip3
+import Zed.Proofs.ZsonJson
 /-!
   C02 — ZSON text round trip is the identity; JSON is a subset.
 
@@ -62,6 +63,27 @@ theorem decorate_rules_as_modelled :
     (`PrimitiveName` and `LookupPrimitive` are inverse tables). -/
 theorem primitive_names_inverse :
     ∀ p ∈ C02.primitiveName, lookupPrimitive (ascii p.2) = some p.1 := by decide
+
+/-- every primitive type in the regenerated `Implied` set other than `int64` is recognised by
+    the lexer from its spelling alone, whatever the text (so leaving the decorator out loses
+    nothing); adding a type whose spelling the lexer classifies differently — `int32`,
+    `uint8`, `float32` … — to `Implied` breaks this obligation.  (`int64` is the lexer's
+    default for decimal integers that fit; `primOK` carries that range condition.) -/
+theorem implied_prims_lex_exact :
+    ∀ id ∈ C02.impliedPrims, id ≠ 9 → ∀ text, lexClass id text = primName id := by
+  have key : ∀ id ∈ C02.impliedPrims, id ≠ 9 →
+      (C02.idInt256 < id ∧ (¬ (C02.idFloat16 ≤ id ∧ id ≤ C02.idFloat256) ∨ primName id = ascii "float64")) := by
+    decide
+  intro id hid hne text
+  obtain ⟨h1, h2⟩ := key id hid hne
+  have h1' : ¬ id ≤ C02.idInt256 := Nat.not_le.mpr h1
+  unfold lexClass
+  simp only [h1', if_false]
+  rcases h2 with h2 | h2
+  · simp [h2]
+  · split
+    · exact h2.symm
+    · rfl
 
 /-! ## quote_roundtrip — names and strings survive the character layer -/
 
@@ -213,5 +235,52 @@ theorem not_zson_roundtrip_value_typedef_in_value_used_by_decorator :
 theorem not_zson_roundtrip_value_union_field_under_decorator :
     rtOK (.error (.record (.cons [98] (.union (.cons (.prim 8) (.cons (.prim 9) .nil))) .nil)))
       (.error (.record (.cons (.union 0 (.prim [49])) .nil))) = false := by decide
+
+
+/-- one name bound to two types in one value: `hasName` looks the *name* up, so the parts of
+    the second value lose their decorators (`{c:1}(=z)` for c of type uint8). -/
+theorem not_zson_roundtrip_value_same_name_two_types :
+    rtOK (.record (.cons [97] (.named [122] (.prim 9)) (.cons [98] (.named [122] (.record (.cons [99] (.prim 0) .nil))) .nil)))
+      (.record (.cons .null (.cons (.named (.record (.cons (.prim [49]) .nil))) .nil))) = false := by decide
+
+/-- a short-form typedef `(=x)` under a decorator that already supplies the union type. -/
+theorem not_zson_roundtrip_value_short_typedef_under_decorator :
+    rtOK (.error (.union (.cons (.prim 9) (.cons (.named [120] (.prim 25)) .nil))))
+      (.error (.union 1 (.named (.prim [97])))) = false := by decide
+
+/-- a type value binds its names in the analyzer's table only: the later `(t)` is resolved to
+    the type value's `t=int8` instead of the value-level `t=uint8`. -/
+theorem not_zson_roundtrip_value_type_value_rebinds_name :
+    rtOK (.record (.cons [97] (.named [116] (.prim 0)) (.cons [98] (.prim 28) (.cons [99] (.named [116] (.prim 0)) .nil))))
+      (.record (.cons (.named (.prim [49])) (.cons (.typeval (.named [116] (.prim 6))) (.cons (.named (.prim [50])) .nil)))) = false := by
+  decide
+
+/-! ## json_subset — every JSON document read as ZSON denotes what the JSON reader builds -/
+
+/- Full statement (false of the current code, see `not_json_subset_*`):
+     ∀ j : J, analyze (zsonParse j) = ok (jsonBuild j)
+   Proved for documents without a repeated object key and without an integer literal in
+   (2^63-1, 2^64-1] (`jsonGuard`), for every analyzer state: integers → int64, other numbers →
+   float64, arrays → array of the union of the non-null element types (`[null]` when there is
+   none), objects → records.  String escapes and number spelling are below the model (tied by
+   the harness oracle `json`). -/
+theorem json_subset_partial (j : Json.J) (h : Json.jsonGuard j = true) (st : AState) :
+    analyzeTop st (Json.toAst j) = .ok (st, Json.jsonBuild j) :=
+  Json.json_subset_core j h st
+
+example : Json.jsonGuard (.obj (.cons [97] (.arr (.cons (.num [49] [49] [49, 46]) (.cons (.str [120]) (.cons .null .nil))))
+    (.cons [98] (.obj .nil) .nil))) = true := by decide
+
+/-- a repeated key: the JSON reader keeps the last value, the ZSON parser the first field. -/
+theorem not_json_subset_duplicate_key :
+    (analyzeTop {} (Json.toAst (.obj (.cons [97] (.num [49] [49] [49, 46]) (.cons [97] (.str [120]) .nil))))).toOption.map (·.2) ≠
+      some (Json.jsonBuild (.obj (.cons [97] (.num [49] [49] [49, 46]) (.cons [97] (.str [120]) .nil)))) := by
+  decide
+
+/-- 9223372036854775808: float64 for the JSON reader, uint64 for the ZSON lexer. -/
+theorem not_json_subset_integer_above_int64 :
+    let big : Bytes := [57, 50, 50, 51, 51, 55, 50, 48, 51, 54, 56, 53, 52, 55, 55, 53, 56, 48, 56]
+    (analyzeTop {} (Json.toAst (.num big big [57]))).toOption.map (·.2) ≠ some (Json.jsonBuild (.num big big [57])) := by
+  decide
 
 end Zed.Props.C02
